@@ -15,7 +15,9 @@ ID = "C14"
 LEVEL = "exploration"
 CASE_TIMEOUT = 2400
 RULE = (
-    "two- to four-component systems (light solvents and polymers whose mean masses differ by factors 1-100, declared fractions 1%-99%), system mass = N "
+    "(A) three/four components of IDENTICAL molecular mass (C4H10O isomers) with distinct declared fractions in every written order: the generated mass "
+    "shares must reproduce the declared fractions (6.5 sigma binomial, re-confirmed) -- here number share and mass share coincide, so the clause is "
+    "decided without reference to the known per-molecule-pick deviation; (B) two- to four-component systems (light solvents and polymers whose mean masses differ by factors 1-100, declared fractions 1%-99%), system mass = N "
     "mean molecule masses; decided (i) from the generator interface: the probability vectors handed to rng.choice for the component pick (constant p*) "
     "and the measured mean molecule masses give the implied asymptotic mass share p*_i M_i / sum_j p*_j M_j, which must lie within the tolerance band of "
     "the declared fraction; (ii) from generated masses: each component's share of the generated mass within tol = max(6.5 sigma_share (delta method), "
@@ -28,15 +30,19 @@ FLOORS = {"quick": {"systems_decided": 8, "molecules_yielded": 3000, "distinct_n
 
 def plan(tier, seed):
     n = 12 if tier == "quick" else 80
-    return [{"seed": seed * 1000607 + i, "nmol": 500 if tier == "quick" else 8000} for i in range(n)]
+    cases = [{"seed": seed * 1000607 + i, "nmol": 500 if tier == "quick" else 8000} for i in range(n)]
+    # equal-mass components (isomers): number share = mass share, so the declared fractions must simply be reproduced
+    for i in range(12 if tier == "quick" else 120):
+        cases.append({"kind": "isomers", "seed": seed * 1000621 + i, "nmol": 1500 if tier == "quick" else 20000})
+    return cases
 
 
 def setup_worker():
     W.install()
 
 
-def polymer(rng, mean_mass):
-    unit = rng.choice(["CC", "CCO", "CC(C)C(=O)OC", "Cc1ccccc1"])
+def polymer(rng, mean_mass, unit=None):
+    unit = unit or rng.choice(["CC", "CCO", "CC(C)C(=O)OC", "Cc1ccccc1"])
     m = gen.fragment_info(unit)[2]
     u = gen.build_token(rng, unit, [Desc("<"), Desc(">")], "ends")
     d = DistAst("gauss", (round(mean_mass, 1), round(0.15 * mean_mass, 1)), 0, True)
@@ -50,17 +56,88 @@ def make(rng):
     mols = []
     kinds = ["solvent", "polymer"] + [rng.choice(["solvent", "polymer"]) for _ in range(n - 2)]
     rng.shuffle(kinds)
+    units = ["CC", "CCO", "CC(C)C(=O)OC", "Cc1ccccc1"]
+    rng.shuffle(units)
     for i, k in enumerate(kinds):
         if k == "solvent":
             mols.append(MolAst([gen.plain_token(solvents[i])], arch="small"))
         else:
-            mols.append(polymer(rng, rng.choice([150, 300, 500, 800])))
+            mols.append(polymer(rng, rng.choice([150, 300, 500, 800]), units[i % len(units)]))
     return SysAst(mols)
+
+
+ISOMERS = ["CCCCO", "CCC(C)O", "CC(C)(C)O", "CCOCC", "COC(C)C", "COCCC"]  # C4H10O, identical heavy-atom mass
+
+
+def run_isomers(case):
+    import gbigsmiles
+    from rdkit import Chem
+    from rdkit.Chem import Descriptors
+
+    rng = random.Random(case["seed"])
+    n = rng.choice([3, 3, 4])
+    smis = rng.sample(ISOMERS, n)
+    base = {3: [[50, 20, 30], [60, 25, 15], [10, 70, 20]], 4: [[40, 10, 30, 20], [5, 55, 25, 15]]}[n]
+    pct = list(rng.choice(base))
+    rng.shuffle(pct)
+    m = Descriptors.HeavyAtomMolWt(Chem.MolFromSmiles(smis[0]))
+    M = m * case["nmol"]
+    mode = rng.choice(["pct", "abs"])  # shapes the library can infer (see the C12 known finding)
+    parts = []
+    for i, (sm, p) in enumerate(zip(smis, pct)):
+        if mode == "abs" or (mode == "mixed" and i % 2 == 0) or (mode == "pct" and i == n - 1):
+            parts.append(f"{sm}.|{p / 100.0 * M!r}|")
+        else:
+            parts.append(f"{sm}.|{p}%|")
+    text = "".join(parts)
+    S = gbigsmiles.System(text)
+    if not S.generable:
+        return {"viol": [{"cls": "c14.system-not-generable", "msg": f"System({text!r}) not generable", "text": text}], "cnt": {}, "nt": []}
+    declared = [mm.mixture.relative_mass / 100.0 for mm in molecules_of(S)]
+    canon = [Chem.MolToSmiles(Chem.MolFromSmiles(x)) for x in smis]
+    cnt = collections.Counter()
+    viol = []
+
+    def shares(seed):
+        trace.enabled = False
+        try:
+            c = collections.Counter()
+            tot = 0.0
+            for g in c13.run_generator(S, np_rng(seed)):
+                c[g.smiles] += g.weight
+                tot += g.weight
+                cnt["molecules_yielded"] += 1
+        finally:
+            trace.enabled = True
+        return [c.get(x, 0.0) / tot for x in canon], tot
+
+    sh, tot = shares(case["seed"])
+    N = tot / m
+    bad = [i for i in range(n) if abs(sh[i] - declared[i]) > 6.5 * math.sqrt(declared[i] * (1 - declared[i]) / N) + 3.0 / N]
+    cnt["isomer_systems_decided"] += 1
+    cnt["systems_decided"] += 1
+    if bad:
+        sh2, tot2 = shares(case["seed"] + 99991)
+        N2 = tot2 / m
+        cnt["reconfirmations"] += 1
+        if any(abs(sh2[i] - declared[i]) > 6.5 * math.sqrt(declared[i] * (1 - declared[i]) / N2) + 3.0 / N2 for i in bad):
+            i = bad[0]
+            viol.append({"cls": "c14.equal-mass-components-composition-differs", "msg": f"components of identical molecular mass: component {i} ({smis[i]}) declared {declared[i]:.4f}, generated share {sh[i]:.4f} and {sh2[i]:.4f} over {N:.0f} / {N2:.0f} molecules (all shares {[round(x, 3) for x in sh]} vs declared {[round(x, 3) for x in declared]})", "text": text})
+    cnt["evaluations"] = cnt["molecules_yielded"]
+    return {"viol": viol, "nt": ["isomers:" + text], "cnt": dict(cnt), "sample": {"equal_mass_system": text, "declared": declared, "generated_shares": [round(x, 4) for x in sh], "molecules": round(N)}}
+
+
+def np_rng(seed):
+    import numpy as np
+
+    return np.random.default_rng(seed)
 
 
 def run_case(case):
     import gbigsmiles
 
+    if case.get("kind") == "isomers":
+        return run_isomers(case)
     rng = random.Random(case["seed"])
     cnt = collections.Counter()
     viol, nt = [], []
@@ -84,6 +161,14 @@ def run_case(case):
     if not S.generable:
         return {"viol": [{"cls": "c14.system-not-generable", "msg": f"System({text!r}) not generable", "text": text}], "cnt": {}, "nt": []}
     declared = [mm.mixture.relative_mass / 100.0 for mm in molecules_of(S)]
+    # membership of a yielded molecule is read off the molecule itself (residue numbers are unique per component)
+    # (residue numbers are not unique across components, the token texts recorded on MolGen.graph are by construction)
+    tokens_of = [set(str(t) for t in mm.residues) for mm in molecules_of(S)]
+
+    def component_of(g):
+        have = {d["big_smiles"] for _, d in g.graph.nodes(data=True)}
+        cs = [ci for ci, ts in enumerate(tokens_of) if have <= ts]
+        return cs[0] if len(cs) == 1 else None
 
     def run(seed):
         trace.reset()
@@ -104,11 +189,9 @@ def run_case(case):
                                     pick = ev[j]
                                     break
                             break
-                    if pick is not None:
+                    if pick is not None and pick["p"] is not None:
                         pvecs.append(tuple(pick["p"]))
-                        comps.append(pick["pos"])
-                    else:
-                        comps.append(None)
+                    comps.append(component_of(g))
                     masses.append(g.weight)
                     del ev[:]
         except StepTimeout:
@@ -124,7 +207,7 @@ def run_case(case):
         for x, c in zip(masses, comps):
             per[c].append(x)
         if None in per:
-            return {"undecided": "component pick not observed"}
+            return {"undecided": "a yielded molecule could not be attributed to one component"}
         mbar = [sum(per[i]) / len(per[i]) if per[i] else means[i] for i in range(n)]
         mmax = max(masses)
         shares = [sum(per[i]) / total for i in range(n)]
@@ -135,8 +218,10 @@ def run_case(case):
             var = sum(v * v for v in z) / N / (EX * EX) / N
             tols.append(max(6.5 * math.sqrt(var), 3 * mmax / total))
         out.update(shares=shares, tols=tols, mbar=mbar)
+        # number fractions: under a per-molecule pick with p = declared fraction they reproduce the declared fractions
+        out["count_fractions"] = [len(per[i]) / N for i in range(n)]
         pset = set(pvecs)
-        if len(pset) == 1:
+        if len(pset) == 1 and len(pvecs) == N:
             pstar = list(pset)[0]
             den = sum(p * m for p, m in zip(pstar, mbar))
             implied = [p * m / den for p, m in zip(pstar, mbar)]
@@ -150,6 +235,7 @@ def run_case(case):
     cnt["molecules_yielded"] += j.get("N", 0)
     if "undecided" in j:
         return {"viol": [], "cnt": dict(cnt), "nt": [], "inconclusive": j["undecided"]}
+    cnt["pick_vector_seen" if "pstar" in j else "pick_vector_not_seen"] += 1
     cnt["systems_decided"] += 1
     bad_iface = []
     if "pstar" in j:
@@ -157,6 +243,12 @@ def run_case(case):
         for i in range(n):
             if abs(j["implied"][i] - declared[i]) > j["tols"][i]:
                 bad_iface.append(i)
+        # the pick vector must also be what actually drives the ensemble: number fractions follow p*
+        for i in range(n):
+            d = j["pstar"][i]
+            if abs(j["count_fractions"][i] - d) > 6.5 * math.sqrt(max(d * (1 - d), 1e-9) / j["N"]) + 1.0 / j["N"]:
+                viol.append({"cls": "c14.components-not-drawn-with-the-probabilities-handed-to-the-generator", "msg": f"component {i} makes up {j['count_fractions'][i]:.4f} of the {j['N']} molecules although it is picked with p = {d:.4f}", "text": text})
+                break
         # discriminating case?
         per_mol_share = j["implied"]
         if any(abs(per_mol_share[i] - declared[i]) > 10 * j["tols"][i] for i in range(n)):
@@ -171,7 +263,12 @@ def run_case(case):
             confirmed = "undecided" not in j2 and any(abs(j2["shares"][i] - declared[i]) > j2["tols"][i] for i in bad_meas)
         if confirmed:
             i = (bad_iface or bad_meas)[0]
-            same_as_fraction = "pstar" in j and all(abs(a - b) < 1e-9 for a, b in zip(j["pstar"], declared))
+            if "pstar" in j:
+                same_as_fraction = all(abs(a - b) < 1e-9 for a, b in zip(j["pstar"], declared))
+            else:
+                # no constant pick vector was seen at the interface: recognise the known mechanism by its signature,
+                # the NUMBER fractions of the components equal the declared mass fractions (binomial 6.5 sigma)
+                same_as_fraction = all(abs(c - d) <= 6.5 * math.sqrt(max(d * (1 - d), 1e-9) / j["N"]) + 1.0 / j["N"] for c, d in zip(j["count_fractions"], declared))
             cls = "c14.component-picked-per-molecule-with-p-equal-mass-fraction" if same_as_fraction else "c14.composition-differs-from-declared"
             viol.append({"cls": cls, "msg": f"component {i}: declared mass fraction {declared[i]:.4f}, generated share {j['shares'][i]:.4f}, share implied by the constant pick vector {j.get('pstar')} and mean molecule masses {[round(x, 1) for x in j['mbar']]}: {j.get('implied', [None] * n)[i]}; tolerance {j['tols'][i]:.4f} over {j['N']} molecules", "text": text})
     cnt.update(trace.take_counters())
